@@ -83,39 +83,56 @@ pub fn json_to_tree<const N: usize, X>(v: &Value) -> Result<Mappings<N, X>> {
 }
 
 pub fn json_to_tree_ord<const N: usize, X>(v: &Value, perm: &mut dyn FnMut(usize) -> Option<Vec<usize>>) -> Result<Mappings<N, X>> {
+	json_to_tree_full(v, perm, false)
+}
+
+/// As `json_to_tree`, but every entry is stored under the key its JSON key string spells ("f <name> <desc>",
+/// "m <name> <desc>", "p <idx>", "c <name>") even where the entry's own content disagrees with it
+/// (the IndexMap fields of quill's tree are public, so such values can be built by any caller).
+pub fn json_to_tree_keyed<const N: usize, X>(v: &Value) -> Result<Mappings<N, X>> {
+	json_to_tree_full(v, &mut |_n| None, true)
+}
+
+fn key_parts(k: &str) -> Vec<&str> { k.split(' ').collect() }
+
+fn json_to_tree_full<const N: usize, X>(v: &Value, perm: &mut dyn FnMut(usize) -> Option<Vec<usize>>, keyed: bool) -> Result<Mappings<N, X>> {
 	let ns: Vec<String> = v["ns"].as_array().context("ns")?.iter().map(|x| x.as_str().unwrap_or("").to_owned()).collect();
 	let ns: [String; N] = ns.try_into().map_err(|_| anyhow!("ns len"))?;
 	let mut m: Mappings<N, X> = Mappings::new(MappingInfo { namespaces: Namespaces::try_from(ns)? });
 	m.javadoc = doc_from_json(&v["doc"])?;
-	for (_, c) in permuted(kids_of(v), perm) {
+	for (ckey, c) in permuted(kids_of(v), perm) {
 		let mut cn: ClassNowodeMapping<N> = ClassNowodeMapping::new(ClassMapping { names: names_from_json::<N, ObjClassName>(&c["names"])? });
 		cn.javadoc = doc_from_json(&c["doc"])?;
-		for (_, k) in permuted(kids_of(c), perm) {
+		for (kkey, k) in permuted(kids_of(c), perm) {
+			let kp = key_parts(kkey);
 			match k["kind"].as_str() {
 				Some("f") => {
 					let desc: FieldDescriptor = js(k["desc"].as_str().context("desc")?).try_into()?;
 					let mut f: FieldNowodeMapping<N> = FieldNowodeMapping::new(FieldMapping { desc, names: names_from_json::<N, FieldName>(&k["names"])? });
 					f.javadoc = doc_from_json(&k["doc"])?;
-					let key = FieldNameAndDesc { desc: f.info.desc.clone(), name: first(&f.info.names)? };
+					let key = if keyed { FieldNameAndDesc { desc: js(kp.get(2).context("key desc")?).try_into()?, name: js(kp.get(1).context("key name")?).try_into()? } }
+						else { FieldNameAndDesc { desc: f.info.desc.clone(), name: first(&f.info.names)? } };
 					if cn.fields.insert(key, f).is_some() { bail!("dup field key"); }
 				},
 				Some("m") => {
 					let desc: MethodDescriptor = js(k["desc"].as_str().context("desc")?).try_into()?;
 					let mut me: MethodNowodeMapping<N> = MethodNowodeMapping::new(MethodMapping { desc, names: names_from_json::<N, MethodName>(&k["names"])? });
 					me.javadoc = doc_from_json(&k["doc"])?;
-					for (_, p) in permuted(kids_of(k), perm) {
+					for (pkey, p) in permuted(kids_of(k), perm) {
 						let index = p["idx"].as_u64().context("idx")? as usize;
+						let kindex = if keyed { key_parts(pkey).get(1).context("key idx")?.parse::<usize>()? } else { index };
 						let mut pn: ParameterNowodeMapping<N> = ParameterNowodeMapping::new(ParameterMapping { index, names: names_from_json::<N, ParameterName>(&p["names"])? });
 						pn.javadoc = doc_from_json(&p["doc"])?;
-						if me.parameters.insert(ParameterKey { index }, pn).is_some() { bail!("dup param key"); }
+						if me.parameters.insert(ParameterKey { index: kindex }, pn).is_some() { bail!("dup param key"); }
 					}
-					let key = MethodNameAndDesc { desc: me.info.desc.clone(), name: first(&me.info.names)? };
+					let key = if keyed { MethodNameAndDesc { desc: js(kp.get(2).context("key desc")?).try_into()?, name: js(kp.get(1).context("key name")?).try_into()? } }
+						else { MethodNameAndDesc { desc: me.info.desc.clone(), name: first(&me.info.names)? } };
 					if cn.methods.insert(key, me).is_some() { bail!("dup method key"); }
 				},
 				other => bail!("bad kid kind {other:?}"),
 			}
 		}
-		let key = first(&cn.info.names)?;
+		let key = if keyed { js(key_parts(ckey).get(1).context("key name")?).try_into()? } else { first(&cn.info.names)? };
 		if m.classes.insert(key, cn).is_some() { bail!("dup class key"); }
 	}
 	Ok(m)
